@@ -431,6 +431,31 @@ def _rd(fn, new, szs_ix):
     return lambda a, m: (lambda e: e and f"{fn} ({new(a)}) {_ints(a[szs_ix])} {e}")(_xread(m))
 
 
+def _bcj_dec_term(a, m):
+    """driver/h_bcj.ml read_all: OK <hex> | ERR <c> <hex> (error after delivered bytes) | ERR <c> | PANIC"""
+    evs = []
+    if a[2] != ".":
+        for t in a[2].split(","):
+            if t.startswith("!"):
+                evs.append(f"IErr {_z(t[1:])}")
+            elif t not in ("-", ""):
+                evs.append(f"IData {_zl(t)}")
+    call = f"bcj_dec_script {_ARCH[a[0]]} {_z(a[1])} [{';'.join(evs)}] {_ints(a[3])}"
+    w = m.split(" ")
+    if w[0] == "OK" and len(w) == 2:
+        pat = f"Ok (b, None) => zlist_eqb b {_zl(w[1])}"
+    elif w[0] == "ERR" and len(w) == 3:
+        pat = f"Ok (b, Some c) => (c =? {_z(w[1])}) && zlist_eqb b {_zl(w[2])}"
+    elif w[0] == "ERR" and len(w) == 2:
+        pat = f"Err c => c =? {_z(w[1])}"
+    elif m == "PANIC":
+        pat = "Panic _ => true"
+    else:
+        return None
+    return f"match {call} with {pat} | _ => false end"
+
+
+XCHECK["bcj_dec"] = ("Filter.Bcj Filter.BcjStream", _bcj_dec_term)
 _DEC = "Codec.Lzma1 Codec.Lzma2Dec Codec.XCheckDec"
 XCHECK["lzma2"] = (_DEC, _rd("x_lzma2", lambda a: f"lzma2_new {_zl(a[2])} {_z(a[0])} {_pre(a[1])}", 3))
 XCHECK["lzma1_hdr"] = (_DEC, _rd("x_lzma1", lambda a: f"lzma1_new_mem_limit {_zl(a[1])} {_z(a[0])} None", 2))
